@@ -58,8 +58,18 @@ def gSeek {σ : Type} (st : Stepper σ) (c : Core) (s : σ) (off : Int) (wh : Na
         { c with rcur := (gDefaultSeek st c s (if wh = 0 then off else if wh = 1 then c.rcur + off else c.frames + off)).1, lastRead := true },
         (gDefaultSeek st c s (if wh = 0 then off else if wh = 1 then c.rcur + off else c.frames + off)).2⟩
 
-/-- the tail of sf_read_raw once the position is right: psf_fread (ptr, 1, bytes), then the clamp at SF_INFO.frames -/
+/-- the tail of sf_read_raw once the position is right: psf_fread (ptr, 1, bytes), then the clamp at SF_INFO.frames
+    (since d9097b4 the test is on the byte count: `count <= (frames - read_current) * blockwidth`) -/
 def gReadTail {σ : Type} (st : Stepper σ) (c : Core) (s : σ) (bytes : Int) : GRes σ :=
+  let bw := if c.blockwidth > 0 then c.blockwidth else 1
+  let r := st s (.read 1 bytes)
+  if r.1.1 ≤ (c.frames - c.rcur) * bw
+  then ⟨r.1.1, r.1.2.take r.1.1.toNat, false, { c with rcur := c.rcur + cdiv r.1.1 bw, lastRead := true }, r.2⟩
+  else ⟨(c.frames - c.rcur) * bw, r.1.2.take ((c.frames - c.rcur) * bw).toNat, false, { c with rcur := c.frames, lastRead := true }, r.2⟩
+
+/-- the rule before d9097b4: the test was on whole frames (`read_current + count / blockwidth <= frames`), which let up to
+    blockwidth - 1 bytes from beyond the audio data through -/
+def gReadTailOld {σ : Type} (st : Stepper σ) (c : Core) (s : σ) (bytes : Int) : GRes σ :=
   let bw := if c.blockwidth > 0 then c.blockwidth else 1
   let r := st s (.read 1 bytes)
   if c.rcur + cdiv r.1.1 bw ≤ c.frames
